@@ -623,6 +623,10 @@ func TestVerifPoolStress(t *testing.T) {
 func ssDispatch(out *vOut, env vEnv, cfgs []ssCfg, rng *vRand, idx int64) {
 	switch env.Prop {
 	case "C09":
+		if idx%6 == 5 {
+			ssRoundRobinLongWait(out, rng, idx)
+			return
+		}
 		ssRoundRobinExact(out, rng, idx)
 	case "C07":
 		ssOneReplacement(out, rng, idx)
@@ -840,6 +844,72 @@ func ssRoundRobinExact(out *vOut, rng *vRand, idx int64) {
 			return
 		}
 	}
+}
+
+// ssRoundRobinLongWait: a round-robin BIND whose assigned channel stays not READY
+// for well over a second of real time (its context alive all the while) must
+// still be waiting, and must get exactly that channel once it turns READY.
+func ssRoundRobinLongWait(out *vOut, rng *vRand, idx int64) {
+	verifClockOn = false
+	n := 2 + rng.Intn(2)
+	cp := &pb.ChannelPoolConfig{MinSize: uint32(n), MaxSize: uint32(n), MaxConcurrentStreamsLowWatermark: 1000, BindPickStrategy: pb.ChannelPoolConfig_ROUND_ROBIN}
+	cc := &ssCC{}
+	b := newBuilder().Build(cc, balancer.BuildOptions{}).(*gcpBalancer)
+	b.UpdateClientConnState(balancer.ClientConnState{ResolverState: resolver.State{Addresses: []resolver.Address{{Addr: "v1"}}}, BalancerConfig: &GCPBalancerConfig{ApiConfig: &pb.ApiConfig{ChannelPool: cp, Method: ssMethods()}}})
+	conns := cc.snapshotConns()
+	if len(conns) != n {
+		out.inconclusive("rr-long-wait: pool not built")
+		return
+	}
+	// every channel READY except channel 1, which is still connecting
+	for i, c := range conns {
+		b.UpdateSubConnState(c, balancer.SubConnState{ConnectivityState: connectivity.Connecting})
+		if i != 1 {
+			b.UpdateSubConnState(c, balancer.SubConnState{ConnectivityState: connectivity.Ready})
+		}
+	}
+	p := cc.picker(rng, 0, nil)
+	mk := func() *ssCtx {
+		return &ssCtx{Context: context.Background(), gc: &gcpContext{reqMsg: &simMsg{}, replyMsg: &simMsg{}}}
+	}
+	// first BIND: channel 0 (READY)
+	pr0, err0 := p.Pick(balancer.PickInfo{FullMethodName: "/v/bind", Ctx: mk()})
+	if err0 != nil || pr0.SubConn.(*ssConn).id != 0 {
+		out.inconclusive("rr-long-wait: first BIND did not go to channel 0")
+		return
+	}
+	type res struct {
+		id  int
+		err error
+	}
+	done := make(chan res, 1)
+	go func() {
+		pr, err := p.Pick(balancer.PickInfo{FullMethodName: "/v/bind", Ctx: mk()})
+		id := -1
+		if err == nil {
+			id = pr.SubConn.(*ssConn).id
+		}
+		done <- res{id, err}
+	}()
+	wait := time.Duration(1300+rng.Intn(400)) * time.Millisecond
+	out.hit("C09.stress-long-wait")
+	log := []string{fmt.Sprintf("rr-long-wait channels=%d: second BIND is assigned channel 1, which stays CONNECTING for %v of real time with the call's context alive", n, wait)}
+	select {
+	case r := <-done:
+		out.violation(vViol{Sig: "C09.stress-early-return", Rule: "C09.stress-early-return", Detail: fmt.Sprintf("a round-robin BIND assigned to channel 1 (still CONNECTING, context alive) returned channel %d err=%v before the channel was READY", r.id, r.err), Case: idx, Log: log})
+		return
+	case <-time.After(wait):
+	}
+	b.UpdateSubConnState(conns[1], balancer.SubConnState{ConnectivityState: connectivity.Ready})
+	select {
+	case r := <-done:
+		if r.err != nil || r.id != 1 {
+			out.violation(vViol{Sig: "C09.stress-wrong-channel", Rule: "C09.stress-wrong-channel", Detail: fmt.Sprintf("the waiting round-robin BIND returned channel %d err=%v after its assigned channel 1 became READY", r.id, r.err), Case: idx, Log: log})
+		}
+	case <-time.After(20 * time.Second):
+		out.violation(vViol{Sig: "C09.stress-waiter-stuck", Rule: "C09.stress-waiter-stuck", Detail: "the waiting round-robin BIND did not return within 20s after its assigned channel became READY", Case: idx, Log: log})
+	}
+	out.nontrivial(vHashStrings([]string{"rr-long-wait", fmt.Sprint(n)}))
 }
 
 // ssToctouGrow: gate scenario for the pool-size check-then-create window.
